@@ -79,6 +79,10 @@ func (r *Run) Execute(or OracleSet) (err error) {
 		r.dns[h] = ips
 	}
 	r.ha.RefuseBadConfig = or.Converge
+	// faults start after the start-up sync point: the properties speak about updates of a
+	// running controller, and a clean baseline keeps a relaxed oracle from hiding anything
+	startFaultsOff := r.faultsOff
+	r.faultsOff = true
 	c, err := r.StartController()
 	if err != nil {
 		return fmt.Errorf("start controller: %w", err)
@@ -94,6 +98,7 @@ func (r *Run) Execute(or OracleSet) (err error) {
 	r.startupCmds = len(r.ha.AdminCmds)
 	r.startupDone = true
 	r.afterLoad()
+	r.faultsOff = startFaultsOff
 	r.syncPoint("startup")
 	for i, op := range cfg.Ops {
 		r.step = i + 1
